@@ -136,6 +136,18 @@ def run_case(case, ctx):
                   "absolute horizon: forecast not labelled by the requested time points", got=[int(v) for v in p2.index], expected=exp_idx)
         ctx.check("rel==abs", _vals_close(p2.values, p.values), "predict:relative-vs-absolute-horizon-differ:" + spec[0],
                   "the same horizon given relative and absolute gives different values", relative=np.asarray(p).tolist(), absolute=np.asarray(p2).tolist())
+    # ---- the same numbers with the other meaning, asked of the same fitted forecaster: labelled as asked -------------------------
+    if fh_in == "predict" and not zoo.requires_fh_in_fit(spec) and cutoff < min(fh):
+        # (only where the numbers are ahead of the cutoff both as steps and as time points: short series / early index starts)
+        ok, p5 = ctx.call("predict:exception:" + spec[0], f.predict, ForecastingHorizon(list(fh), is_relative=False))
+        if ok:
+            ctx.check("rel==abs", [int(v) for v in p5.index] == list(fh), "predict:same-numbers-as-time-points:labelled-like-the-earlier-relative-request:" + spec[0],
+                      "after a relative horizon S the absolute time points S were not answered with labels S", got=[int(v) for v in p5.index], expected=list(fh), cutoff=cutoff)
+        ok, p6 = ctx.call("predict:exception:" + spec[0], f.predict, list(fh))
+        if ok:
+            ctx.check("predict.index", [int(v) for v in p6.index] == exp_idx, "predict:same-numbers-as-steps:labelled-like-the-earlier-absolute-request:" + spec[0],
+                      "after the absolute time points S the relative steps S were not answered with labels cutoff + S", got=[int(v) for v in p6.index], expected=exp_idx)
+        ctx.tag("same-numbers-other-meaning")
     # ---- each step's value belongs to that step: a horizon with gaps / a late start is a sub-selection of the full one --------
     full_fh = list(range(1, max(fh) + 1))
     if fh != full_fh and zoo.horizon_separable(spec):
